@@ -53,6 +53,9 @@ TABLE = {
   "C18": ("Lean 4 theorems over an exact Int-rank model of k_center_clustering and the view's per-cluster arg-min + rank-coded exact correspondence with both entry points",
           "Proved for every n, k <= n, first < n and every distance/value table: centres distinct, valid, starting at first; each next centre is the first farthest non-centre; every observation goes to the first nearest centre, no cluster empty; per cluster the best is the first arg-min; best_indices is k distinct valid indices containing the global first arg-min; the code's assertions never fire; a tie-liberal spec implies the same conclusions.",
           "Not modelled in Lean: search-space conversion (C19) and metric scaling (C12), checked per run by independent oracles; IEEE rounding of distances (ranks of the library's floats are the model input).", "3/C18"),
+  "C19": ("Lean 4 exact-rational model of the search acquisition (unit/search maps, clamped expanded distance, strict-radius zeroing, batching, repulsor loop) + differential correspondence with ProbabilityOfImprovementSearch, the helper maps and recorded search_strategy_optimization runs",
+          "Proved for all domains, repulsor sets, radii, points, batch sizes, optimisers and redrawn radii: value in [0,1], exactly 0 iff some repulsor is strictly inside the radius and otherwise p; the expanded clamped distance is the squared Euclidean distance; both unit-cube round trips; in-box coordinates in [0,1]; distance decomposition with >= 2t^2 (hence >= sqrt(one-hot dim)) between differing categories; batch independence; each pick becomes a repulsor before the next, radius redrawn, function restored.",
+          "The success probability is an input (C05). IEEE rounding absorbed by a boundary margin eta=(4d+48)eps(|u|^2+|w|^2); strictness checked exactly on a dyadic family. t = numpy.sqrt(one_hot_dim) is a parameter (d <= 2t^2 checked per case).", "3/C19"),
 }
 
 
